@@ -613,6 +613,7 @@ type RWMutex struct {
 	real    gosync.RWMutex
 	writer  bool
 	readers int
+	waiting int // writers blocked in Lock
 	hb      int32
 }
 
@@ -623,7 +624,11 @@ func (m *RWMutex) Lock() {
 		m.real.Lock()
 		return
 	}
+	// as in sync.RWMutex, a blocked Lock excludes new readers (which is what makes a recursive
+	// read lock deadlock-prone): the waiting writer is visible to RLock
+	m.waiting++
 	s.point("wlock", m.wfree)
+	m.waiting--
 	m.writer = true
 	raceAcquire(unsafe.Pointer(&m.hb))
 }
@@ -914,8 +919,11 @@ func (m *Mutex) free() bool { return !m.held }
 //go:norace
 func (m *RWMutex) wfree() bool { return !m.writer && m.readers == 0 }
 
+// a reader is held back by a writer that is really blocked (there are readers in); a writer at its
+// Lock call with the lock free is simply enabled
+//
 //go:norace
-func (m *RWMutex) rfree() bool { return !m.writer }
+func (m *RWMutex) rfree() bool { return !m.writer && (m.waiting == 0 || m.readers == 0) }
 
 //go:norace
 func (w *WaitGroup) zero() bool { return w.n <= 0 }
